@@ -1,0 +1,7 @@
+//go:build !verif
+
+package cache
+
+func verifShard(_ []byte, index, _ uint64) uint64 {
+	return index
+}
